@@ -119,7 +119,7 @@ theorem expand_matches_direct (c : Calc) (seqs : List (List Int)) (a b : Nat)
   rw [hcell]
   unfold cell dictGet
   rw [if_neg hab]
-  show ((expand seqs.length (run c seqs)) a b).getD .absent = _
+  show ((expand seqs.length (run c seqs)).get a b).getD .absent = _
   rw [expand_settled c seqs a b ha hb hab]; rfl
 
 /-- the diagonal of the returned matrix is the literal zero -/
